@@ -869,6 +869,7 @@ def run_job(job):
         fn = helper(db, name)
         opts = Opts(max_paths=20000)
         opts.unroll_loops = False
+        opts.byte_positions = True          # repeated reads of one position agree (slice patterns read an element more than once)
         I = Interp(db, opts)
         st = I.new_state()
         L0 = st.sym('len', 0, MAXLEN, 'usize')
